@@ -24,7 +24,9 @@ import (
 type StyleSheet struct {
 	// We declare a StyleSheet not as a string but as a struct wrapping a string
 	// to prevent construction of StyleSheet values through string conversion.
-	str string
+	// The field name differs from that of every other safe type, so that a value
+	// of one safe type cannot be converted to another one either.
+	sheet string
 }
 
 // StyleSheetFromConstant constructs a StyleSheet with the
@@ -113,5 +115,5 @@ var matchingBrackets = map[byte]byte{
 
 // String returns the string form of the StyleSheet.
 func (s StyleSheet) String() string {
-	return s.str
+	return s.sheet
 }
